@@ -139,3 +139,17 @@ package choquet
 //@   ensures [one_entry_each] result != nil && len(*result) == len(dmp.ConsideredAlternatives)
 //@   ensures [all_considered_present] forall j int :: 0 <= j && j < len(dmp.ConsideredAlternatives) ==> exists i int :: 0 <= i && i < len(*result) && (*result)[i].Alternative == dmp.ConsideredAlternatives[j]
 //@   ensures [C04 ordered_by_value_then_id] forall i int, j int :: 0 <= i && i < j && j < len(*result) ==> !model.ordered((*result)[j].AlternativeResult, (*result)[i].AlternativeResult)
+
+//@ func (*ChoquetIntegralPreferenceFunc).MethodParameters
+//@   property C20
+//@   nopanic
+//@   ensures [schema_of_the_weights_parameter] typeis(result, model.WeightType)
+
+// omission: the capacities of the subsets of the kept criteria, each as the parameters gave it; the kept criteria become the list
+//@ func (*ChoquetIntegralBiasListener).OnCriteriaRemoved
+//@   property C07 C15
+//@   requires [parameters] typeis(params, choquetParams) && params.(choquetParams).weights != nil
+//@   ensures [capacities_restricted_to_the_kept_criteria_unchanged] typeis(result, choquetParams) && result.(choquetParams).weights != nil && result.(choquetParams).criteria == leftCriteria
+//@             && forall q string :: q in *result.(choquetParams).weights ==> q in *params.(choquetParams).weights && (*result.(choquetParams).weights)[q] == (*params.(choquetParams).weights)[q]
+//@   loop 1 invariant [ctx] fresh(filteredWeights) && filteredWeights != nil
+//@   loop 1 invariant [so_far] forall q string :: q in filteredWeights ==> q in *cParams.weights && filteredWeights[q] == (*cParams.weights)[q]
